@@ -76,6 +76,12 @@ def parse_model(*, model: Type[T], obj: Any) -> T:
     except PydanticValidationError as exc:
         errors: list[ErrorDict] = cast(list[ErrorDict], exc.errors())
         raise DecodeValidationError(pydantic_validationerrors_to_str(model, errors))
+    except RecursionError:
+        # A YAML document can contain itself through an alias ("steps: &s [*s]"): walking it never ends.
+        raise DecodeValidationError(
+            f"1 validation errors for {model.__name__}\n"
+            f"The {model.__name__} is nested too deeply, or a part of it contains itself."
+        )
 
 
 def document_string_to_object(*, document: str, document_type: DocumentType) -> dict[str, Any]:
